@@ -415,6 +415,12 @@ func genHistory(g *common.Gen, r *common.Rand) {
 			g.Stat("op-expressl")
 			continue
 		}
+		if r.Chance(1, 60) {
+			// one frame holding two Data packets of names somebody may be waiting for
+			g.Op("data2 %s %d %s %d w%d @%d", common.NameText(relatedName()), r.Intn(2), common.NameText(relatedName()), r.Intn(2), r.Intn(3), t)
+			g.Stat("op-data2")
+			continue
+		}
 		if !dummyClock && !fires[t+1000000+marginUs] && r.Chance(1, 45) {
 			// the application registers a route while the face cannot send: the engine's own command Interest
 			// (lifetime 1 s) stays pending inside the engine and times out there
@@ -1035,6 +1041,21 @@ func (h *hist) execOp(op string) string {
 			mode = wrapMode(f[4])
 		}
 		if err := h.face.FeedPacket(lpWrap(w, mode, false)); err != nil {
+			res = "feed-err"
+		} else {
+			res = "ok"
+		}
+	case "data2":
+		// data2 <nameA> <vA> <nameB> <vB> <w>: ONE frame (bare, or the Fragment of one LpPacket) that holds TWO
+		// complete Data packets one behind the other. A frame carries one packet: this one is garbage and resolves
+		// nothing (the raw bytes the engine would hash for an implicit digest span both packets)
+		if len(f) != 6 {
+			return "pre=" + pre + " res=bad-op cb=-"
+		}
+		wa := dataWire(common.ParseNameText(f[1]), common.Atoi(f[2]))
+		wb := dataWire(common.ParseNameText(f[3]), common.Atoi(f[4]))
+		both := append(append([]byte{}, wa...), wb...)
+		if err := h.face.FeedPacket(lpWrap(both, wrapMode(f[5]), false)); err != nil {
 			res = "feed-err"
 		} else {
 			res = "ok"
